@@ -392,21 +392,46 @@ def backtrack_cut(run, ctx):
     mm = H.pat_match("(%s - {start})" % KEEP, ns[0][2]) if len(ns) == 1 else None
     need(mm is not None and ns[0][1] == "=", "nsave", "the new delta size must be (kept end - start of the surviving branch's entries), found %s" % ns)
     START = mm.group("start") if mm else "?"
-    # 2. the (start, end) computation
-    tup = [(k, v) for k, v in lets.items() if k.startswith("(") and START in k]
-    need(len(tup) == 1, "bounds-let", "cannot find the (start, end) computation")
-    if tup:
-        mt = H.pat_match("({s},{e})", tup[0][0])
-        END = mt.group("e") if mt else "?"
-        inner = tup[0][1]
-        need("let mut end = (len(self.oldsave) - self.nsave)" in inner.replace("let end", "let mut end") or "end = (len(self.oldsave) - self.nsave)" in inner,
-             "end-init", "end of the surviving entries must start from oldsave.len() - self.nsave (the current delta is discarded or merged), found %s" % inner[:120])
-        need(re.search(r"for Branch\{nsave:(\w+),\.\.\} in self\.stack\[\(1 \+ %s\)\.\.\] \{end -= \1\}" % re.escape(COUNT), inner) is not None,
-             "end-loop", "end must be lowered by the nsave of every branch above the surviving one: for Branch{nsave,..} in &self.stack[count+1..] { end -= nsave }, found %s" % inner[:200])
-        need(re.search(r"let start = \(end - self\.stack\[%s\]\.nsave\)" % re.escape(COUNT), inner) is not None,
-             "start", "start must be end - stack[count].nsave, found %s" % inner[:200])
-    else:
-        END = "?"
+    # 2. the bounds of the surviving branch's own undo entries, found by the roles the variables play:
+    #    END starts as oldsave.len() - self.nsave and is lowered by the nsave of every branch above the surviving one,
+    #    START = END - stack[count].nsave   (block-valued tuple, two lets, shadowing rebinds: all the same)
+    END = "?"
+    loops = [nd for nd in H.walk(body) if nd.get("k") == "For" and H.canon(nd["iter"]) in ("self.stack[(1 + %s)..]" % COUNT, "self.stack[(1 + %s)..].iter()" % COUNT)]
+    need(len(loops) == 1, "end-loop", "end must be lowered by the nsave of every branch above the surviving one: for Branch{nsave,..} in &self.stack[count+1..] { end -= nsave }")
+    if len(loops) == 1:
+        lp = loops[0]
+        pc_ = H.pat_canon(lp["pat"])
+        mN = re.match(r"^Branch\{nsave:(\w+),\.\.\}$", pc_)
+        subs = [nd for nd in H.walk(lp["body"]) if nd.get("k") == "AssignOp" and nd["op"].startswith("Sub")]
+        okl = len(subs) == 1 and len([x for x in H.walk(lp["body"]) if x.get("k") in ("Assign", "AssignOp", "MethodCall", "Call")]) == 1
+        if okl:
+            rhs = H.canon(subs[0]["r"])
+            okl = (mN is not None and rhs == mN.group(1)) or (re.match(r"^\w+$", pc_) and rhs == "%s.nsave" % pc_)
+        need(okl, "end-loop", "the loop over the discarded branches must do nothing but `end -= branch.nsave`, found %s" % H.canon(lp["body"])[:120])
+        if okl:
+            X = H.canon(subs[0]["l"])
+            inits = [H.canon(nd["init"]) for nd in H.walk(body) if nd.get("k") == "Let" and nd.get("init") is not None and H.pat_canon(nd["pat"]) == X]
+            inits += [a[2] for a in assigns if a[0] == X and a[1] == "="]
+            need("(len(self.oldsave) - self.nsave)" in inits, "end-init", "end of the surviving entries must start from oldsave.len() - self.nsave (the current delta is discarded or merged), found %s" % inits)
+            others = [a for a in assigns if a[0] == X and not (a[1].startswith("Sub") and a is not None)]
+            # names the final value of X goes by
+            names_ = {X}
+            for k_, v_ in lets.items():
+                if v_ in names_ and re.match(r"^\w+$", k_):
+                    names_.add(k_)
+            for k_, v_ in lets.items():
+                mt = H.pat_match("({s},{e})", k_)
+                if mt and re.search(r"\(\w+,%s\)$" % re.escape(X), v_):
+                    names_.add(mt.group("e"))
+            starts_ = ["(%s - self.stack[%s].nsave)" % (x_, COUNT) for x_ in names_]
+            sdef = [k_ for k_, v_ in lets.items() if v_ in starts_]
+            tup_s = [H.pat_match("({s},{e})", k_).group("s") for k_, v_ in lets.items() if H.pat_match("({s},{e})", k_) and any(("let %s = %s" % (sd, st)) in v_ for sd in ["start"] + list(lets) for st in starts_)]
+            good_start = START in sdef or START in tup_s or any(("let %s = %s" % (sd, st)) in v_ and re.search(r"\(%s,\w+\)$" % re.escape(sd), v_) and H.pat_match("({s},{e})", k_) and H.pat_match("({s},{e})", k_).group("s") == START
+                                                               for k_, v_ in lets.items() for st in starts_ for sd in re.findall(r"let (\w+) = ", v_))
+            need(good_start, "start", "start must be end - stack[count].nsave, found %s" % {k_: v_[:80] for k_, v_ in lets.items() if START in k_})
+            # END as the later steps name it
+            cands = [x_ for x_ in names_ if re.search(r"self\.oldsave\[%s\.\.%s\]" % (re.escape(START), re.escape(x_)), c) or re.search(r"in %s\.\.len\(self\.oldsave\)" % re.escape(x_), c)]
+            END = cands[0] if cands else X
     # 3. slots already logged for the surviving branch are kept as they are
     need(re.search(r"for Save\{slot:(\w+),\.\.\} in self\.oldsave\[%s\.\.%s\] \{(\w+)\.insert\(\1\)\}" % (re.escape(START), re.escape(END)), c) is not None
          or re.search(r"let \w+ = self\.oldsave\[%s\.\.%s\]\.iter\(\)\.map\(\|(\w+)\| \1\.slot\)\.collect\(\)" % (re.escape(START), re.escape(END)), c) is not None,
